@@ -41,6 +41,9 @@ pub type Policy = Rc<dyn Fn(SocketAddr, &str) -> Verdict>;
 struct Net {
     enabled: bool,
     servers: HashMap<SocketAddr, ServerState>,
+    /// Addresses that reach a server registered under another address (a node that binds one
+    /// address and advertises another one to its peers).
+    aliases: HashMap<SocketAddr, SocketAddr>,
     policy: Option<Policy>,
     /// Handler tasks currently running per server, so that removing a server (process death)
     /// also ends the requests it was still working on, as a closed socket would.
@@ -58,6 +61,7 @@ pub fn enable(on: bool) {
         n.enabled = on;
         if !on {
             n.servers.clear();
+            n.aliases.clear();
             n.policy = None;
             n.inflight.clear();
         }
@@ -86,6 +90,11 @@ pub fn unregister(addr: SocketAddr) {
     });
 }
 
+/// Makes requests addressed to `public` reach the server that listens on `listen`.
+pub fn alias(public: SocketAddr, listen: SocketAddr) {
+    NET.with(|n| n.borrow_mut().aliases.insert(public, listen));
+}
+
 pub(crate) fn register(addr: SocketAddr, state: ServerState) {
     NET.with(|n| n.borrow_mut().servers.insert(addr, state));
 }
@@ -100,14 +109,15 @@ pub(crate) async fn send(
     headers: HeaderMap,
     body: hyper::Body,
 ) -> Result<Response<hyper::Body>, Error> {
-    let (state, verdict) = NET.with(|n| {
+    let (state, verdict, target) = NET.with(|n| {
         let n = n.borrow();
         let v = n
             .policy
             .as_ref()
             .map(|p| p(remote_addr, &path))
             .unwrap_or(Verdict::Deliver);
-        (n.servers.get(&remote_addr).cloned(), v)
+        let target = n.aliases.get(&remote_addr).copied().unwrap_or(remote_addr);
+        (n.servers.get(&target).cloned(), v, target)
     });
 
     if let Verdict::Delay(d) = verdict {
@@ -136,7 +146,7 @@ pub(crate) async fn send(
         let task = tokio::spawn(crate::net::verif_handle(req, state, client));
         NET.with(|n| {
             let mut n = n.borrow_mut();
-            let list = n.inflight.entry(remote_addr).or_default();
+            let list = n.inflight.entry(target).or_default();
             list.retain(|h| !h.is_finished());
             list.push(task.abort_handle());
         });
